@@ -122,29 +122,73 @@ pub(crate) fn crc_update_noop(_this: &mut crc32fast::Hasher, _buf: &[u8]) {}
 /// glue. Leaking custom error payloads has no observable effect on raft-log.
 pub(crate) fn custom_owner_drop(_this: &mut core::io::CustomOwner) {}
 
-// ---- C13: ghost flock table (kernel contract: one holder per lock file) ----
-pub(crate) static mut FLOCK_HOLDER: Option<i32> = None;
+// ---- C13: ghost flock table (kernel contract: one holder per lock-file INODE) ----
+// flock locks belong to the inode behind an open file description. Unlinking
+// the LOCK path and creating it again yields a different inode whose lock is
+// free - which is why the table is keyed by inode, not by path.
+pub(crate) const MAX_LOCK_FDS: usize = 6;
+/// holder (fd) of the flock on each inode
+pub(crate) static mut INODE_HOLDER: [Option<i32>; MAX_LOCK_FDS] = [None; MAX_LOCK_FDS];
+/// inode the LOCK path currently names (a fresh one after an unlink)
+pub(crate) static mut LOCK_PATH_INODE: usize = 0;
+/// inode behind each lock fd
+pub(crate) static mut FD_INODE: [usize; MAX_LOCK_FDS] = [0; MAX_LOCK_FDS];
 pub(crate) static mut FLOCK_ATTEMPTS: u8 = 0;
 pub(crate) static mut LOCK_OPENS: u8 = 0;
+pub(crate) static mut LOCK_UNLINKS: u8 = 0;
+/// the directory is owned by somebody outside the harness (inode 0 held by fd 999)
+pub(crate) fn foreign_owner() {
+    unsafe { INODE_HOLDER[0] = Some(999) };
+}
 
-/// OpenOptions::open for the LOCK file: a new fd for every open
+fn lock_fd_index(f: &File) -> usize {
+    use std::os::fd::AsRawFd;
+    let i = (f.as_raw_fd() - gfs::LOCK_FD_BASE) as usize;
+    #[cfg(kani)]
+    kani::assume(i < MAX_LOCK_FDS);
+    i
+}
+
+/// OpenOptions::open for the LOCK file (create + open): a new fd for every
+/// open, bound to the inode the path names now
 pub(crate) fn open_lock_file<P: AsRef<Path>>(_this: &OpenOptions, _path: P) -> io::Result<File> {
     use std::os::fd::FromRawFd;
     unsafe {
-        let fd = gfs::LOCK_FD_BASE + LOCK_OPENS as i32;
+        let idx = LOCK_OPENS as usize;
+        if idx >= MAX_LOCK_FDS {
+            #[cfg(kani)]
+            kani::assume(false);
+        }
+        FD_INODE[idx] = LOCK_PATH_INODE;
+        let fd = gfs::LOCK_FD_BASE + idx as i32;
         LOCK_OPENS += 1;
         Ok(File::from_raw_fd(fd))
     }
+}
+
+/// std::fs::remove_file in the C13 harnesses = unlink of the LOCK path: the
+/// path names a fresh inode from now on (open file descriptions keep the old one)
+pub(crate) fn remove_lock_file<P: AsRef<Path>>(_path: P) -> io::Result<()> {
+    unsafe {
+        LOCK_UNLINKS += 1;
+        LOCK_PATH_INODE += 1;
+        if LOCK_PATH_INODE >= MAX_LOCK_FDS {
+            #[cfg(kani)]
+            kani::assume(false);
+        }
+    }
+    Ok(())
 }
 
 pub(crate) fn try_lock_exclusive(this: &File) -> io::Result<()> {
     use std::os::fd::AsRawFd;
     unsafe {
         FLOCK_ATTEMPTS += 1;
-        match FLOCK_HOLDER {
+        let ino = FD_INODE[lock_fd_index(this)];
+        match INODE_HOLDER[ino] {
             Some(_) => Err(io::Error::from(io::ErrorKind::WouldBlock)),
             None => {
-                FLOCK_HOLDER = Some(this.as_raw_fd());
+                INODE_HOLDER[ino] = Some(this.as_raw_fd());
                 Ok(())
             }
         }
@@ -154,26 +198,50 @@ pub(crate) fn try_lock_exclusive(this: &File) -> io::Result<()> {
 pub(crate) fn flock_unlock(this: &File) -> io::Result<()> {
     use std::os::fd::AsRawFd;
     unsafe {
-        if FLOCK_HOLDER == Some(this.as_raw_fd()) {
-            FLOCK_HOLDER = None;
+        let fd = this.as_raw_fd();
+        let idx = (fd - gfs::LOCK_FD_BASE) as usize;
+        if idx < MAX_LOCK_FDS {
+            let ino = FD_INODE[idx];
+            if INODE_HOLDER[ino] == Some(fd) {
+                INODE_HOLDER[ino] = None;
+            }
         }
     }
     Ok(())
 }
 
-/// `<OwnedFd as Drop>::drop` -> no-op: close(2) is a foreign function; the
-/// kernel would also release the flock on close, which `flock_unlock` models.
+/// `<OwnedFd as Drop>::drop` -> no close(2) (a foreign function); the kernel
+/// would release the flock of this open file description on close
 pub(crate) fn owned_fd_drop(this: &mut std::os::fd::OwnedFd) {
     use std::os::fd::AsRawFd;
     unsafe {
-        if FLOCK_HOLDER == Some(this.as_raw_fd()) {
-            FLOCK_HOLDER = None;
+        let fd = this.as_raw_fd();
+        let idx = (fd - gfs::LOCK_FD_BASE) as usize;
+        if fd >= gfs::LOCK_FD_BASE && idx < MAX_LOCK_FDS {
+            let ino = FD_INODE[idx];
+            if INODE_HOLDER[ino] == Some(fd) {
+                INODE_HOLDER[ino] = None;
+            }
         }
     }
 }
 
+/// number of inodes whose flock is held right now (> 1 = two owners of one directory)
+pub(crate) fn flock_holders() -> usize {
+    let mut n = 0;
+    let mut i = 0;
+    while i < MAX_LOCK_FDS {
+        if unsafe { INODE_HOLDER[i] }.is_some() {
+            n += 1;
+        }
+        i += 1;
+    }
+    n
+}
+
+/// holder of the flock on the first LOCK inode (the one the first owner locked)
 pub(crate) fn flock_holder() -> Option<i32> {
-    unsafe { FLOCK_HOLDER }
+    unsafe { INODE_HOLDER[0] }
 }
 
 /// `<io::Error as Display>::fmt` / `Debug::fmt` -> nothing written. `to_string()`
